@@ -54,7 +54,9 @@ def classifyWrite (s : String) : Option Write :=
   else if s == "cell.f" then some (.lazyF 0)
   else if hasPrefix "ctx." s then some .ctx
   else if hasPrefix "arg." s || hasPrefix "cellRef." s || hasPrefix "cr." s || hasPrefix "token." s
-      || hasPrefix "arrayFormulaOperandTokens[" s then some .localVar
+      || hasPrefix "arrayFormulaOperandTokens[" s
+      -- fields of a `formulaArrayConst` (array constant under evaluation, allocated per call)
+      || hasPrefix "a." s then some .localVar
   else none
 
 /-- the evaluator's own functions (calls between them add no write) -/
